@@ -279,9 +279,15 @@ def _(self, members: ObjSeq("Type"), data: ByteArray, values: AbsDict, offset: N
     # "out of data" means the end of the (definite) contents was reached or passed
     ensures(implies(result[1] and end_offset is not None, result[0] >= end_offset))
     loop(0, invariant=[offset >= old(offset), offset <= len(data)], decreases=len(data) - offset)
+    # C04 (members in any order): in every round each remaining member is either decoded (its value stored) or kept
+    # for the next round -- none is dropped.  g_kept / g_done are ghost counters of those two events.
+    ghost_init(g_kept=0, g_done=0)
+    at_stmt("undecoded_members.append(member)", set=dict(g_kept=g_kept + 1))
+    at_stmt("values[member.name] = value", set=dict(g_done=g_done + 1))
     loop(1, invariant=[offset >= at_head(offset, 0), offset <= len(data),
                        implies(decode_success, offset > at_head(offset, 0)),
-                       implies(out_of_data and end_offset is not None, offset >= end_offset)])
+                       implies(out_of_data and end_offset is not None, offset >= end_offset),
+                       g_kept + g_done == at_entry(g_kept + g_done, 1) + _i1])
     loop(2, invariant=[offset <= len(data)])
 
 
